@@ -1,6 +1,6 @@
 (* Decoder for the view written by tools/viewdump.py, encoder for the analyzer model's outcome. *)
 From Coq Require Import List Ascii String Bool Arith ZArith.
-From SV Require Import Lib.Str Lib.Sexp Model.Types Model.Api Model.Back Model.Layout Model.FrontSmall Model.View Model.Front Model.Run Driver.Codec Driver.ApiCodec.
+From SV Require Import Lib.Str Lib.Sexp Model.Types Model.Api Model.Back Model.Layout Model.FrontSmall Model.View Model.Front Model.Json Model.Run Driver.Codec Driver.ApiCodec.
 Import ListNotations.
 
 Fixpoint mt_of_sx_f (fuel : nat) (x : sexp) : option mtype :=
@@ -389,7 +389,8 @@ Definition sx_of_logrec (l : logrec) : sexp :=
 Definition sx_of_outcome (r : res outcome) : sexp :=
   match r with
   | Err e => L [T"err"; sx_of_err e]
-  | Ok o => L [T"ok"; sx_of_api (o_api o); L (map (fun l => L (map A l)) (o_flat o)); L (map sx_of_logrec (o_log o)); of_bool (o_amb o)]
+  | Ok o => L [T"ok"; sx_of_api (o_api o); L (map (fun l => L (map A l)) (o_flat o)); L (map sx_of_logrec (o_log o)); of_bool (o_amb o);
+               sx_of_jv (api_json [] [] o)]
   end.
 
 Definition run_front (x : sexp) : sexp :=
